@@ -86,7 +86,7 @@ type pipeline struct {
 	run  func(s *sharedInputs, gate func()) []byte
 }
 
-func hashCalls(cs []Call) []byte  { b, _ := json.Marshal(cs); return b }
+func hashCalls(cs []Call) []byte   { b, _ := json.Marshal(cs); return b }
 func hashRCalls(cs []RCall) []byte { b, _ := json.Marshal(cs); return b }
 
 func allPipelines(s *sharedInputs) []pipeline {
@@ -116,6 +116,15 @@ func allPipelines(s *sharedInputs) []pipeline {
 				gate()
 				b, err := decode.Disassemble(s.graphics[gi])
 				return append(b, fmt.Sprint(err)...)
+			}},
+			pipeline{fmt.Sprintf("disassemble-rejected/%d", gi), func(s *sharedInputs, gate func()) []byte {
+				// a rejected input (cut inside its last instruction) after some lines were printed
+				gate()
+				g := s.graphics[gi]
+				b, err := decode.Disassemble(g[: len(g)-1 : len(g)-1])
+				gate()
+				_, err2 := decode.DecodeViewBox(g[:5:5])
+				return append(b, fmt.Sprint(err, err2)...)
 			}},
 			pipeline{fmt.Sprintf("decode-palette-pixels/%d", gi), func(s *sharedInputs, gate func()) []byte {
 				img := image.NewRGBA(image.Rect(0, 0, 40, 40))
